@@ -8,7 +8,8 @@
 (* The oracle first checks that the text IS the rendering of the lines (so the driver cannot judge   *)
 (* a document other than the one it parsed), then compares:                                          *)
 (*   wellformed document  -> must be ok and every getter on every path equals the reference          *)
-(*   unclosed / hostile   -> error, or ok and complete (same comparison)                             *)
+(*   unclosed / hostile   -> error, or ok and complete (same comparison; "silent-partial" when         *)
+(*                           something written is absent, "wrong-result" when only a value differs)  *)
 (*   mismatched close     -> error; ok is a violation when a binding written after the bad close is  *)
 (*                           retrievable nowhere (observably dropped), otherwise only an observation *)
 (*   any                  -> never panic                                                             *)
@@ -85,6 +86,18 @@ Sane(rec, r) ==
 Dropped(rec, r) == \E i \in (r.fault + 1)..Len(rec.lines) :
    /\ rec.lines[i].t = "kv"
    /\ \A p \in AllPaths(Range(rec.names), rec.depth) : ResAt(EntryAt(rec, p), rec.lines[i].k)[2] # rec.lines[i].v
+\* something written is absent from the answers (as opposed to present with a different value)
+Missing(rec, r) == \E p \in DOMAIN r.dom :
+   LET e == EntryAt(rec, p) opt == OptKeys(r, p) IN
+   \/ \E k \in KeysOf(r, p) \ opt : ResAt(e, k)[2] = "<D>" \/ k \notin Range(e.keys)
+   \/ ~(Subs(r, p) \subseteq Range(e.subs))
+   \/ Len(e.lines) < Len(ExpLineTexts(r, p, FALSE))
+\* signature of a successful parse whose answers differ: "silent-partial" when part of the document is absent
+Differs(rec, r, fs, partial) == IF fs = {} THEN "" ELSE IF Missing(rec, r) THEN "silent-partial:" \o partial
+                                ELSE "wrong-result:" \o First(fs)
+\* '&', '<' or a control character cannot be tokenized as XML at all ('>' alone can): a success that differs from the
+\* reference is then necessarily a partial representation (truncated value, spurious domain, missing rest)
+XmlBreaking(doc) == \E i \in 1..Len(doc) : HostileLn(doc[i]) /\ doc[i].v # "2>1"
 HasLong(doc) == \E i \in 1..Len(doc) : Binding(doc[i]) /\ doc[i].v = LongVal
 
 V(i, cls, impl, sig, obs) == [i |-> i, cls |-> cls, impl |-> impl, sig |-> sig, obs |-> obs, fs |-> <<>>]
@@ -106,11 +119,11 @@ Judge(i) ==
      ELSE IF rec.class = "err" THEN V(i, cls, "err", IF cls = "wellformed" THEN "spurious-error:wellformed-document" ELSE "", "")
      ELSE CASE cls = "mismatch"   -> IF Dropped(rec, r) THEN V(i, cls, "ok", "silent-partial:mismatched-close", obs)
                                      ELSE V(i, cls, "ok", "", "mismatched-close-accepted")
-            [] cls = "hostile"    -> VF(i, cls, "ok", IF fs = {} THEN "" ELSE "silent-partial:xml-token-error", obs, fs)
-            [] cls = "unclosed"   -> VF(i, cls, "ok", IF fs = {} THEN "" ELSE "silent-partial:unclosed-domain", obs, fs)
-            [] cls = "wellformed" -> VF(i, cls, "ok", IF fs = {} THEN ""
-                                                      ELSE IF HasLong(doc) THEN "silent-partial:line-over-64KiB"
-                                                      ELSE "wrong-result:" \o First(fs), obs, fs)
+            [] cls = "hostile"    -> VF(i, cls, "ok", IF XmlBreaking(doc) THEN (IF fs = {} THEN "" ELSE "silent-partial:xml-token-error")
+                                                      ELSE Differs(rec, r, fs, "xml-token-error"), obs, fs)
+            [] cls = "unclosed"   -> VF(i, cls, "ok", Differs(rec, r, fs, "unclosed-domain"), obs, fs)
+            [] cls = "wellformed" -> VF(i, cls, "ok", IF HasLong(doc) THEN Differs(rec, r, fs, "line-over-64KiB")
+                                                      ELSE IF fs = {} THEN "" ELSE "wrong-result:" \o First(fs), obs, fs)
 Verdicts == [i \in 1..Len(Recs) |-> Judge(i)]
 ASSUME VocabSane
 ASSUME ndJsonSerialize("verdicts.ndjson", Verdicts)
